@@ -320,6 +320,19 @@ def carriers(ctxs, lay, scratch, rng):
     ps_ = layout(plain(ctxs, "iso"), lay)
     yield "dict", json_to_dict(pd_)
     yield "OrderedDict", pd_
+    if has_window:
+        # python carriers may hold a ready-made TimeWindow (config.tw) instead of a window mapping, and tuples for spans
+        from ioos_qc.config import tw  # noqa: PLC0415
+
+        def with_tw(o, top=True):
+            if isinstance(o, dict):
+                return type(o)((k, (tw(**{kk: vv for kk, vv in v.items()}) if k == "window" and isinstance(v, dict) else with_tw(v, False)))
+                               for k, v in o.items())
+            if isinstance(o, list):
+                return [with_tw(v, False) for v in o] if (not o or isinstance(o[0], (dict, list))) else tuple(o)
+            return o
+        yield "dict(tw-window,tuple-spans)", with_tw(json_to_dict(pd_))
+        yield "OrderedDict(tw-window,tuple-spans)", with_tw(pd_)
     ytxt = ruamel_yaml(pd_)
     yield "yaml-text(ruamel)", ytxt
     yield "yaml-text(hand)", hand_yaml(json_to_dict(pd_))
